@@ -1,3 +1,4 @@
+import Heathcliff.Proofs.C03K
 import Heathcliff.Proofs.C02K
 import Heathcliff.Proofs.C07L
 import Heathcliff.Proofs.GenValid
@@ -57,5 +58,192 @@ theorem gen_is_scale_within_bounds_ckks (scale : Float) (plainBits totalBits : N
     (hfl : (scale < Float.ofScientific 1 false 0 * (Float.ofNat 2) ^ (Float.ofNat totalBits)) ↔ l2 < (totalBits : Int)) :
     GenV.is_scale_within_bounds .ckks plainBits totalBits (decide (scale ≤ 0.0)) l2 = ckksScaleOk scale totalBits :=
   HC.gx_is_scale_within_bounds_ckks scale plainBits totalBits l2 ht hp hfl
+
+
+/-! ### CKKS evaluation of the MODEL at the integer level: every operation's effect on Spec.phase (add, sub, negate, multiply = negacyclic product, multiply_plain, rescale with explicit rounding error, drop, relinearize + noise), a program-level soundness theorem by induction over programs (model result within the propagated worst-case bound of the exact reference; scales as exact rationals), refusals
+    (statements, hypothesis bundles and non-vacuity instances: Heathcliff/Proofs/C03K.lean, section "Property theorems") -/
+
+/-- K1 ADD (`ctTranslate … false`, any two sizes): on canonical NTT-form ciphertexts with equal correction factor (CKKS: both 1)
+    the model succeeds, the result is canonical of size max(n1, n2), and its exact phase is the sum of the exact phases modulo Q -/
+theorem ckks_add_phase : type_of% @HC.ckks_add_phase := @HC.ckks_add_phase
+
+/-- K1 SUB (`ctTranslate … true`): the exact phase of the result is the difference of the exact phases modulo Q -/
+theorem ckks_sub_phase : type_of% @HC.ckks_sub_phase := @HC.ckks_sub_phase
+
+/-- K1 NEGATE (`ctNegate`): the exact phase is negated modulo Q -/
+theorem ckks_negate_phase : type_of% @HC.ckks_negate_phase := @HC.ckks_negate_phase
+
+/-- K1 MULTIPLY (`ctMultiplyDyadic` = `ckks_multiply`, any sizes n1, n2 in 2..16): the model succeeds, the result has n1 + n2 − 1
+    canonical polynomials (a canonical ciphertext when that is ≤ 16), and its exact phase is the NEGACYCLIC PRODUCT of the exact
+    phases modulo Q: phase(r) ≡ phase(a) ⋆ phase(b).  No noise is added by the tensor product. -/
+theorem ckks_multiply_phase : type_of% @HC.ckks_multiply_phase := @HC.ckks_multiply_phase
+
+/-- K1 MULTIPLY_PLAIN (`ctMultiplyPlainNtt`): for ANY integer lift `M` of the plaintext polynomial (`c03k_PlainLift`; e.g. the CRT
+    lift or the centred CRT lift, `c03k_plainLift_crt/_centred`) the exact phase of the result is phase(a) ⋆ M modulo Q -/
+theorem ckks_multiply_plain_phase : type_of% @HC.ckks_multiply_plain_phase := @HC.ckks_multiply_plain_phase
+
+/-- every exact phase is the centred representative: coefficients in (−Q/2, Q/2] -/
+theorem ckks_phase_centred : type_of% @HC.ckks_phase_centred := @HC.ckks_phase_centred
+
+/-- no wrap-around: a congruence `phase ≡ y (mod Q)` with |y| < Q/2 is an equality of integers -/
+theorem ckks_phase_exact : type_of% @HC.ckks_phase_exact := @HC.ckks_phase_exact
+
+/-- K1 DROP (`modSwitchDropNext` = CKKS `mod_switch_to_next`): the last RNS component is removed, nothing else changes; the exact
+    phase at the lower level is the old exact phase modulo Q' = Q / q_last (so it is its centred remainder, `ckks_phase_exact`) -/
+theorem ckks_mod_switch_drop_phase : type_of% @HC.ckks_mod_switch_drop_phase := @HC.ckks_mod_switch_drop_phase
+
+/-- K1 RESCALE (`modSwitchScaleNext` on a CKKS level = `rescale_to_next`, any size): the model succeeds, the result is canonical at
+    the next level, and with the explicit error polynomial ρ = Σ_k ρ_k ⋆ s^k (`c03k_rescaleErr`; ρ_k the rounding remainders of the
+    CRT lifts of the polynomials)
+        q_L · phase(result) ≡ phase(ct) + ρ   (mod Q),     2‖ρ‖∞ ≤ q_L · Σ_{k<size} ‖s‖₁^k
+    (size 2: 2‖ρ‖∞ ≤ q_L(1 + ‖s‖₁)). -/
+theorem ckks_rescale_phase : type_of% @HC.ckks_rescale_phase := @HC.ckks_rescale_phase
+
+/-- K1 RELINEARIZE (+ν) (`relinearize` of C04 on a CKKS level, size 3 → 2): with a relinearisation key satisfying the key equation
+    for s² → s (`c04k_KeyEq`, hypotheses of C04K's `relinearize_phase`; concrete instance `c04k_exRelinKeyEq`), the model succeeds,
+    the result is a canonical size-2 ciphertext and its exact phase is the old exact phase plus the key-switching noise
+    ν = `c04k_nuStd` modulo Q; ‖ν‖∞ is bounded by `switchKey_noise_bound` (restated below) -/
+theorem ckks_relinearize_phase : type_of% @HC.ckks_relinearize_phase := @HC.ckks_relinearize_phase
+
+/-- the relinearisation noise: P·‖ν‖∞ ≤ dsz·A·n·Be + ⌊P/2⌋·(1 + ‖s‖₁) for level moduli ≤ A and key errors ‖e_i‖∞ ≤ Be -/
+theorem ckks_relinearize_noise : type_of% @HC.ckks_relinearize_noise := @HC.ckks_relinearize_noise
+
+/-- K1 RESCALE, exact form: when phase(ct) + ρ does not wrap around modulo Q the congruence is an equality of integers; then
+    |q_L·phase(result) − phase(ct)| ≤ (q_L/2)·Σ_{k<size}‖s‖₁^k, i.e. |phase(result) − phase(ct)/q_L| ≤ (1/2)·Σ_{k<size}‖s‖₁^k
+    (size 2: (1 + ‖s‖₁)/2) -/
+theorem ckks_rescale_phase_exact : type_of% @HC.ckks_rescale_phase_exact := @HC.ckks_rescale_phase_exact
+
+/-- model level: relinearising a size-3 ciphertext without a key for s² is refused; a size-2 ciphertext is returned unchanged;
+    fewer than two polynomials are refused -/
+theorem ckks_relinearize_refusals : type_of% @HC.ckks_relinearize_refusals := @HC.ckks_relinearize_refusals
+
+theorem c03k_inv_of_modEq : type_of% @HC.c03k_inv_of_modEq := @HC.c03k_inv_of_modEq
+
+theorem c03k_translate_sound : type_of% @HC.c03k_translate_sound := @HC.c03k_translate_sound
+
+theorem c03k_neg_sound : type_of% @HC.c03k_neg_sound := @HC.c03k_neg_sound
+
+theorem c03k_mul_sound : type_of% @HC.c03k_mul_sound := @HC.c03k_mul_sound
+
+theorem c03k_mulPlain_sound : type_of% @HC.c03k_mulPlain_sound := @HC.c03k_mulPlain_sound
+
+theorem c03k_drop_sound : type_of% @HC.c03k_drop_sound := @HC.c03k_drop_sound
+
+theorem c03k_abs_natAbs_le : type_of% @HC.c03k_abs_natAbs_le := @HC.c03k_abs_natAbs_le
+
+theorem c03k_rescale_sound : type_of% @HC.c03k_rescale_sound := @HC.c03k_rescale_sound
+
+theorem c03k_relin_sound : type_of% @HC.c03k_relin_sound := @HC.c03k_relin_sound
+
+theorem c03k_obind : type_of% @HC.c03k_obind := @HC.c03k_obind
+
+/-- K2 (invariant form): if the MODEL evaluation of a program succeeds and the reference evaluation (interval arithmetic) is defined,
+    the model's result satisfies the invariant against the reference result -/
+theorem ckks_program_inv : type_of% @HC.ckks_program_inv := @HC.ckks_program_inv
+
+/-- K2: the integer-level statement of C03's first sentence.  For every program over add, sub, negate, multiply, multiply_plain,
+    rescale, mod-switch, relinearize (the key-switching hypotheses `c03k_RelinOK` are needed only if the program relinearises): if the MODEL evaluation succeeds with value `v` and the reference evaluation yields `r`, then the result is
+    at the level the reference predicts, its recorded scale is EXACTLY the reference scale (products for multiplications, quotients
+    by the dropped primes for rescalings), it has the predicted number of polynomials, and every coefficient of its exact phase is
+    within the computed worst-case bound `r.err` of the reference polynomial `r.val` (itself bounded by `r.mag`) -/
+theorem ckks_program_sound : type_of% @HC.ckks_program_sound := @HC.ckks_program_sound
+
+/-- operands in different representations are refused by add / sub -/
+theorem ckks_add_refuses_repr : type_of% @HC.ckks_add_refuses_repr := @HC.ckks_add_refuses_repr
+
+/-- multiply refuses coefficient-form operands -/
+theorem ckks_multiply_refuses_coeff : type_of% @HC.ckks_multiply_refuses_coeff := @HC.ckks_multiply_refuses_coeff
+
+/-- multiply_plain refuses a coefficient-form ciphertext -/
+theorem ckks_multiply_plain_refuses_coeff : type_of% @HC.ckks_multiply_plain_refuses_coeff := @HC.ckks_multiply_plain_refuses_coeff
+
+/-- rescale / mod-switch refuse on the last level and (CKKS) on coefficient-form input -/
+theorem ckks_rescale_refusals : type_of% @HC.ckks_rescale_refusals := @HC.ckks_rescale_refusals
+
+/-- the model's float scale predicate: refusal exactly when scale ≤ 0 or scale ≥ 2^bits (IEEE comparisons) -/
+theorem ckks_scaleOk_false_iff : type_of% @HC.ckks_scaleOk_false_iff := @HC.ckks_scaleOk_false_iff
+
+theorem c03k_scaleOk_iff : type_of% @HC.c03k_scaleOk_iff := @HC.c03k_scaleOk_iff
+
+/-- program level: operands on different levels are refused by add / sub / multiply / multiply_plain -/
+theorem ckks_prog_refuses_levels : type_of% @HC.ckks_prog_refuses_levels := @HC.ckks_prog_refuses_levels
+
+/-- program level: disagreeing scales are refused by add / sub -/
+theorem ckks_prog_refuses_scale_mismatch : type_of% @HC.ckks_prog_refuses_scale_mismatch := @HC.ckks_prog_refuses_scale_mismatch
+
+/-- program level: a product scale out of bounds (not 0 < s·s' < 2^bits(Q)) is refused by multiply / multiply_plain -/
+theorem ckks_prog_refuses_oversize_scale : type_of% @HC.ckks_prog_refuses_oversize_scale := @HC.ckks_prog_refuses_oversize_scale
+
+/-- program level: invalid operands (`ctValid` false, empty, or coefficient form) are refused by every operation -/
+theorem ckks_prog_refuses_invalid : type_of% @HC.ckks_prog_refuses_invalid := @HC.ckks_prog_refuses_invalid
+
+/-- program level: relinearisation refuses invalid operands and sizes other than 3 -/
+theorem ckks_prog_relin_refusals : type_of% @HC.ckks_prog_relin_refusals := @HC.ckks_prog_relin_refusals
+
+/-- program level: rescale / mod-switch below level 0 are refused -/
+theorem ckks_prog_refuses_last_level : type_of% @HC.ckks_prog_refuses_last_level := @HC.ckks_prog_refuses_last_level
+
+theorem c03k_exL1_ok : type_of% @HC.c03k_exL1_ok := @HC.c03k_exL1_ok
+
+theorem c03k_exL0_ok : type_of% @HC.c03k_exL0_ok := @HC.c03k_exL0_ok
+
+/-- `c03k_Next` holds between the two levels the driver builds for {97, 113} and {97} -/
+theorem c03k_exNext : type_of% @HC.c03k_exNext := @HC.c03k_exNext
+
+/-- `c03k_ChainOK` is satisfiable (all parts except the concrete `Next` come from `mkLevel_ok`, i.e. from the model's constructors) -/
+theorem c03k_exChainOK : type_of% @HC.c03k_exChainOK := @HC.c03k_exChainOK
+
+theorem c03k_exPhase : type_of% @HC.c03k_exPhase := @HC.c03k_exPhase
+
+theorem c03k_exPhase0 : type_of% @HC.c03k_exPhase0 := @HC.c03k_exPhase0
+
+theorem c03k_exCanon : type_of% @HC.c03k_exCanon := @HC.c03k_exCanon
+
+theorem c03k_exInv : type_of% @HC.c03k_exInv := @HC.c03k_exInv
+
+/-- an environment with one input ciphertext and no plaintexts -/
+theorem c03k_env_single : type_of% @HC.c03k_env_single := @HC.c03k_env_single
+
+/-- `c03k_EnvOK` is satisfiable -/
+theorem c03k_exEnv : type_of% @HC.c03k_exEnv := @HC.c03k_exEnv
+
+theorem c03k_exRun_ok : type_of% @HC.c03k_exRun_ok := @HC.c03k_exRun_ok
+
+theorem c03k_exRef_ok : type_of% @HC.c03k_exRef_ok := @HC.c03k_exRef_ok
+
+/-- the main theorem applies to a concrete run: level 0, scale 8·8/113, size 3, and every phase coefficient within the bound -/
+theorem c03k_program_nonvacuous : type_of% @HC.c03k_program_nonvacuous := @HC.c03k_program_nonvacuous
+
+theorem c03k_exRL_wf : type_of% @HC.c03k_exRL_wf := @HC.c03k_exRL_wf
+
+theorem c03k_exRL_levelQ : type_of% @HC.c03k_exRL_levelQ := @HC.c03k_exRL_levelQ
+
+/-- `c03k_KeyLevelOf` is satisfiable -/
+theorem c03k_exRL_of : type_of% @HC.c03k_exRL_of := @HC.c03k_exRL_of
+
+theorem c03k_exRL_ct : type_of% @HC.c03k_exRL_ct := @HC.c03k_exRL_ct
+
+/-- all hypotheses of `ckks_relinearize_phase` hold simultaneously; its conclusion on the instance -/
+theorem c03k_relinearize_nonvacuous : type_of% @HC.c03k_relinearize_nonvacuous := @HC.c03k_relinearize_nonvacuous
+
+theorem c03k_canon_kl : type_of% @HC.c03k_canon_kl := @HC.c03k_canon_kl
+
+theorem c03k_exRL_tool : type_of% @HC.c03k_exRL_tool := @HC.c03k_exRL_tool
+
+theorem c03k_exChain1OK : type_of% @HC.c03k_exChain1OK := @HC.c03k_exChain1OK
+
+theorem c03k_exPhase2 : type_of% @HC.c03k_exPhase2 := @HC.c03k_exPhase2
+
+theorem c03k_exInv2 : type_of% @HC.c03k_exInv2 := @HC.c03k_exInv2
+
+/-- `c03k_RelinOK` is satisfiable -/
+theorem c03k_exRelinOK : type_of% @HC.c03k_exRelinOK := @HC.c03k_exRelinOK
+
+theorem c03k_exRun2_ok : type_of% @HC.c03k_exRun2_ok := @HC.c03k_exRun2_ok
+
+theorem c03k_exRef2_ok : type_of% @HC.c03k_exRef2_ok := @HC.c03k_exRef2_ok
+
+/-- the program theorem applies to a concrete run that multiplies and relinearises -/
+theorem c03k_program_relin_nonvacuous : type_of% @HC.c03k_program_relin_nonvacuous := @HC.c03k_program_relin_nonvacuous
 
 end HC.C03
